@@ -46,6 +46,9 @@ type RTPair struct {
 	// ElsewhereWhy).
 	ElsewherePrefix string
 	ElsewhereWhy    string
+	// ParserParams: integer parameters of the parser that its caller derives from the stream (name -> value for a
+	// source), e.g. the end offset of a section.
+	ParserParams map[string]func(src *Source) lin.Form
 	// Start: byte offset at which the parser starts reading (bytes before it are consumed by its caller).
 	Start int64
 	// Guided: compose by interpreting the parser once per writer outcome (oracle.go) instead of refuting a flat
@@ -110,10 +113,15 @@ func (c *Checker) a3(r *report.Report, p RTPair) {
 	nsrc, ncomp := 0, 0
 	var accBad, consBad []string
 	assumed := map[string]bool{}
+	deadline := time.Now().Add(4 * time.Minute)
 	for i := range ws.Outcomes {
 		o := &ws.Outcomes[i]
 		if o.ErrNil == pathint.No {
 			continue
+		}
+		if time.Now().After(deadline) {
+			r.Unknown("A3", p.Name+"/budget", pos, fmt.Sprintf("time budget exceeded after %d of %d writer outcomes (the parser's interpretation forks on these streams: they are not the streams it expects)", nsrc, len(ws.Outcomes)))
+			break
 		}
 		if readsThroughNil(o) {
 			continue
@@ -153,6 +161,10 @@ func (c *Checker) a3(r *report.Report, p RTPair) {
 		var comp *Composition
 		if p.Guided {
 			opts.Start = p.Start
+			opts.Params = map[string]lin.Form{}
+			for name, fn := range p.ParserParams {
+				opts.Params[name] = fn(src)
+			}
 			comp = c.Guided(src, p.Parser, p.It, p.Root, p.RootPtr, opts)
 			ncomp++
 		} else {
